@@ -194,6 +194,16 @@ func doInventory(p *Prog, what string) {
 		for _, id := range ids {
 			fmt.Printf("%-6s min=%-3d %s\n", id, rules[id].Min, rules[id].Title)
 		}
+	case "props":
+		var ids []string
+		for id := range propSpecs {
+			ids = append(ids, id)
+		}
+		sort.Strings(ids)
+		for _, id := range ids {
+			sp := propSpecs[id]
+			fmt.Printf("%s %s\n", id, strings.Join(append(append([]string{}, sp.Quick...), sp.Thorough...), ","))
+		}
 	case "chan":
 		ce := chanEngine(p)
 		ce.dump()
